@@ -14,12 +14,12 @@ def encode_integer(r: int) -> bytes:
         h = "0" + h
     s = binascii.unhexlify(h.encode("utf8"))
     if ord(s[:1]) <= 0x7F:
-        return b"\x02" + bytes([len(s)]) + s
+        return b"\x02" + encode_length(len(s)) + s
     else:
         # DER integers are two's complement, so if the first byte is
         # 0x80-0xff then we need an extra 0x00 byte to prevent it from
         # looking negative.
-        return b"\x02" + bytes([len(s) + 1]) + b"\x00" + s
+        return b"\x02" + encode_length(len(s) + 1) + b"\x00" + s
 
 
 def encode_sequence(*encoded_pieces: bytes) -> bytes:
